@@ -64,14 +64,14 @@ def _make(entry, tool, coolant, bmode, reset=False):
         if e is not None:
             reached("raised")
             return V(f"{entry}-raises-{exc_name(e)}",
-                     f"{entry}() raised {exc_name(e)}: {e} (tool={tool}, coolant={coolant}, "
+                     lambda: f"{entry}() raised {exc_name(e)}: {e} (tool={tool}, coolant={coolant}, "
                      f"bounds={bmode}, power={p!r}, tool-power bound=({lo!r},{hi!r}))")
         try:
             got = blocks_of(rec)
         except Malformed as m:
             return V(f"{entry}-malformed-output", str(m))
         if got != want:
-            return V(f"{entry}-wrong-sequence", f"emitted {got}, expected {want}")
+            return V(f"{entry}-wrong-sequence", lambda: f"emitted {got}, expected {want}")
         s = g.state
         if entry in ("tool_off", "power_off", "emergency_halt") and s.is_tool_active:
             return V(f"{entry}-tool-still-active", "state reports the tool active afterwards")
